@@ -7,4 +7,5 @@ MODULES = [
     'harness.c15',
     'harness.c16',
     'harness.c07',
+    'harness.c06',
 ]
